@@ -112,7 +112,10 @@ partial def showVal : PyVal → String
       let ts := (xs.map showVal).mergeSort (fun a b => !(decide (b < a)))
       " ".intercalate (("S" ++ toString xs.length) :: ts)
   | .ndarray dt sh d => "A" ++ dt ++ ":" ++ "x".intercalate (sh.map toString) ++ " " ++ showVal d
-  | .dict kvs => " ".intercalate (("D" ++ toString kvs.length) :: kvs.map (fun (k, v) => showStr k ++ " " ++ showVal v))
+  | .dict kvs =>
+      -- canonical form: entries sorted (the key order of a dict is not part of what is compared)
+      let ts := (kvs.map (fun (k, v) => showStr k ++ " " ++ showVal v)).mergeSort (fun a b => !(decide (b < a)))
+      " ".intercalate (("D" ++ toString kvs.length) :: ts)
 
 def showErr : Err → String
   | .py e => "error:" ++ toString e
@@ -172,20 +175,22 @@ def frOfVal (tbl : PyVal) : Nat → PyFloat → String := fun w f =>
       | _ => none)).getD "?"
   | _ => "?"
 
-def wfSim (s : SimResults) : Bool :=
-  wfChain s.params && wf s.runnedReps && wf s.originalFilename && wf s.currentRep
-
 def goodResultB (r : Result) : Bool :=
   if r.typeCode == 3 then
-    match r.value, r.total, r.numUpdates with
-    | .ndarray dt [n] (.list cs), .int t, .int nu =>
+    match r.value, r.total, r.numUpdates, r.resultSum, r.resultSqSum with
+    | .ndarray dt [n] (.list cs), .int t, .int nu, .float (.fin 0 1), .float (.fin 0 1) =>
       match intList cs with
       | some counts => dt == "int64" && n == counts.length && counts.all (· ≥ 0)
           && t == ((natSum (counts.map Int.toNat) : Nat) : Int) && nu == t && wfList r.valueList
           && r.totalList.isEmpty
       | none => false
-    | _, _, _ => false
+    | _, _, _, _, _ => false
   else wfResult r
+
+/-- executable form of `goodSim` (the hypotheses of `simresults_roundtrip`) -/
+def wfSim (s : SimResults) : Bool :=
+  !s.params.isEmpty && wfChain s.params && wf s.runnedReps && wf s.originalFilename && wf s.currentRep
+    && s.results.all (fun p => !reserved p.1 && p.2.all goodResultB)
 
 def handle (toks : List String) : String :=
   match toks with
